@@ -63,7 +63,7 @@ def exc_is_sub(c, anc):
 
 class State:
     __slots__ = ('pc', 'env', 'heap', 'ghost', 'writes', 'pre', 'exc', 'trace', 'spec',
-                 'entry_env', 'loopw', 'notes', 'tags', 'sharded')
+                 'entry_env', 'loopw', 'notes', 'tags', 'sharded', 'qpc')
 
     def __init__(self):
         self.pc = []
@@ -80,6 +80,7 @@ class State:
         self.notes = ()
         self.tags = {}
         self.sharded = False
+        self.qpc = []       # quantified path facts: part of every obligation, not of pruning
 
     def copy(self):
         s = State()
@@ -97,6 +98,7 @@ class State:
         s.notes = self.notes
         s.tags = dict(self.tags)
         s.sharded = self.sharded
+        s.qpc = list(self.qpc)
         return s
 
 
@@ -139,7 +141,12 @@ class Engine:
         self._unfolded = {}
         self._spec_bases = []
         self.unfolding = 0
+        self._parsed = {}
+        self._qsites = {}
+        self._an = {}
+        self._qbody = {}
         self.spec_prune = int(os.environ.get('PYVC_SPEC_PRUNE', '0'))
+        self.fast_prune = os.environ.get('PYVC_FAST_PRUNE', '1') == '1'
         self.quants = {}
         self._fc_memo = {}
         self.bound_depth = 0
@@ -194,7 +201,7 @@ class Engine:
 
     # -----------------------------------------------------------------------------------------
     # path conditions
-    def assume(self, st, cond, copy=True):
+    def assume(self, st, cond, copy=True, precise=False):
         """Returns a state with cond added, or None if the path is infeasible."""
         if isinstance(cond, bool):
             cond = z3.BoolVal(cond)
@@ -246,13 +253,37 @@ class Engine:
         t0 = time.time()
         sol = z3.Solver()
         sol.set('timeout', 100 if st.spec else self.prune_ms)
-        sol.add(*s2.pc)
+        if self.fast_prune and not precise:
+            sol.add(*[self.abstract(p) for p in s2.pc])
+        else:
+            sol.add(*s2.pc)
         r = sol.check()
         self.stats['prune_calls'] += 1
         self.stats['prune_time'] += time.time() - t0
         if r == z3.unsat:
             return None
         return s2
+
+    def abstract(self, t):
+        """Propositional skeleton of a path condition for PRUNING ONLY: atoms that involve the
+        string/sequence theory become opaque Boolean constants (a weaker formula: unsat of the
+        abstraction implies unsat of the original)."""
+        key = ('ab', t.get_id())
+        hit = self._fc_memo.get(key)
+        if hit is not None:
+            return hit[0]
+        if z3.is_and(t) or z3.is_or(t) or z3.is_not(t) or z3.is_implies(t) or \
+                (z3.is_app(t) and t.decl().kind() in (z3.Z3_OP_ITE, z3.Z3_OP_IFF, z3.Z3_OP_EQ,
+                                                      z3.Z3_OP_XOR) and
+                 all(z3.is_bool(c) for c in t.children())):
+            ch = [self.abstract(c) for c in t.children()]
+            r = t.decl()(*ch)
+        elif self.has_seq(t):
+            r = z3.Bool('abs!%d' % t.get_id())
+        else:
+            r = t
+        self._fc_memo[key] = (r, t)
+        return r
 
     def add_all(self, st, conds):
         """Adds several conditions and checks feasibility once. Returns st or None."""
@@ -261,13 +292,19 @@ class Engine:
             if z3.is_false(cs):
                 return None
             if not z3.is_true(cs):
-                st.pc.append(c)
+                if self.has_quant(c):
+                    st.qpc.append(c)
+                else:
+                    st.pc.append(c)
         if st.spec:
             return st
         t0 = time.time()
         sol = z3.Solver()
         sol.set('timeout', self.prune_ms)
-        sol.add(*st.pc)
+        if self.fast_prune:
+            sol.add(*[self.abstract(p) for p in st.pc])
+        else:
+            sol.add(*st.pc)
         r = sol.check()
         self.stats['prune_calls'] += 1
         self.stats['prune_time'] += time.time() - t0
@@ -292,7 +329,7 @@ class Engine:
         q = self.quants.get(g.get_id())
         if q is not None and q[0].is_exists():
             t, consts, rng, body = q
-            if len(consts) == 1:
+            if len(consts) == 1 and consts[0].sort() == z3.IntSort():
                 alts = []
                 for w in range(4):
                     sub = (consts[0], z3.IntVal(w))
@@ -304,7 +341,7 @@ class Engine:
             t, consts, rng, body = q
             subs = []
             for c in consts:
-                k = z3.Int(self.name('sk_' + c.decl().name().split('!')[0]))
+                k = z3.Const(self.name('sk_' + c.decl().name().split('!')[0]), c.sort())
                 subs.append((c, k))
                 sk.append(k)
             b = self.skolemize(z3.substitute(body, *subs), sk)
@@ -313,120 +350,135 @@ class Engine:
             return b
         return g
 
+    def quant_sites(self, p):
+        """[(guards, quantifier record)] for the registered foralls occurring in p at top level,
+        under And / Implies (memoised per premise)."""
+        key = p.get_id()
+        hit = self._qsites.get(key)
+        if hit is not None:
+            return hit[0]
+        out = []
+
+        def walk(x, guards):
+            if z3.is_and(x):
+                for c in x.children():
+                    walk(c, guards)
+            elif z3.is_implies(x):
+                walk(x.arg(1), guards + (x.arg(0),))
+            else:
+                q = self.quants.get(x.get_id())
+                if q is not None and not q[0].is_exists() and len(q[1]) == 1:
+                    out.append((guards, q))
+        if self.analyze(p)[2]:
+            walk(p, ())
+        self._qsites[key] = (out, p)
+        return out
+
     def instances(self, p, cands, out):
         """Instances of registered forall-premises (top level, under And / Implies)."""
-        if z3.is_and(p):
-            for c in p.children():
-                self.instances(c, cands, out)
-            return
-        if z3.is_implies(p):
-            sub = []
-            self.instances(p.arg(1), cands, sub)
-            out.extend(z3.Implies(p.arg(0), x) for x in sub)
-            return
-        q = self.quants.get(p.get_id())
-        if q is None or q[0].is_exists():
-            return
-        t, consts, rng, body = q
-        if len(consts) != 1:
-            return
-        for c in cands:
-            b = z3.substitute(body, (consts[0], c))
-            r = [z3.substitute(x, (consts[0], c)) for x in rng]
-            out.append(z3.Implies(z3.And(*r), b) if r else b)
+        for guards, (t, consts, rng, body) in self.quant_sites(p):
+            for c in cands:
+                if c.sort() != consts[0].sort():
+                    continue
+                b = z3.substitute(body, (consts[0], c))
+                r = [z3.substitute(x, (consts[0], c)) for x in rng]
+                inst = z3.Implies(z3.And(*r), b) if r else b
+                for g in reversed(guards):
+                    inst = z3.Implies(g, inst)
+                out.append(inst)
+
+    def analyze(self, t):
+        """One bottom-up pass per distinct subterm (global memo): the fresh constants it
+        mentions, whether it involves strings/sequences/quantifiers, the ground index terms of
+        seq.nth / select applications, and the nth-over-concat helper facts."""
+        memo = self._an
+        tid = t.get_id()
+        hit = memo.get(tid)
+        if hit is not None:
+            return hit[1]
+        stack = [(t, False)]
+        EMPTY = (frozenset(), False, False, (), ())
+        while stack:
+            x, done = stack.pop()
+            xid = x.get_id()
+            if xid in memo:
+                continue
+            if z3.is_quantifier(x):
+                if not done:
+                    stack.append((x, True))
+                    b = x.body()
+                    if b.get_id() not in memo:
+                        stack.append((b, False))
+                    self._qbody[xid] = b
+                    continue
+                rb = memo[self._qbody[xid].get_id()][1]
+                memo[xid] = (x, (rb[0], True, True, (), ()))
+                continue
+            if not z3.is_app(x):
+                memo[xid] = (x, EMPTY)      # bound variable
+                continue
+            ch = x.children()
+            if not done and ch:
+                stack.append((x, True))
+                for c in ch:
+                    if c.get_id() not in memo:
+                        stack.append((c, False))
+                continue
+            consts = set()
+            hasseq = z3.is_seq(x) or z3.is_string(x)
+            hasq = False
+            idx = []
+            ncf = []
+            for c in ch:
+                rc = memo[c.get_id()][1]
+                consts |= rc[0]
+                hasseq = hasseq or rc[1]
+                hasq = hasq or rc[2]
+                idx.extend(rc[3])
+                ncf.extend(rc[4])
+            k = x.decl().kind()
+            if not ch:
+                if k == z3.Z3_OP_UNINTERPRETED:
+                    n = x.decl().name()
+                    if '!' in n:
+                        consts.add(n)
+            elif k == z3.Z3_OP_SEQ_NTH and len(ch) == 2:
+                if not memo[ch[1].get_id()][1][2]:
+                    idx.append(ch[1])
+                sq, ix = ch[0], ch[1]
+                if z3.is_app(sq) and sq.decl().kind() == z3.Z3_OP_SEQ_CONCAT and \
+                        sq.num_args() == 2:
+                    a, b = sq.arg(0), sq.arg(1)
+                    la = z3.Length(a)
+                    ncf.append((xid, (z3.Implies(z3.And(ix >= 0, ix < la), x == a[ix]),
+                                      z3.Implies(z3.And(ix >= la, ix < la + z3.Length(b)),
+                                                 x == b[ix - la]))))
+            elif k == z3.Z3_OP_SELECT and len(ch) == 2 and \
+                    ch[1].sort() in (z3.IntSort(), z3.StringSort()):
+                idx.append(ch[1])
+            if len(idx) > 40:
+                idx = idx[:40]
+            memo[xid] = (x, (frozenset(consts), hasseq, hasq, tuple(idx), tuple(ncf)))
+        return memo[tid][1]
+
+    def has_seq(self, t):
+        r = self.analyze(t)
+        return r[1] or r[2]
+
+    def has_quant(self, t):
+        return self.analyze(t)[2]
+
+    def fresh_consts(self, t):
+        return self.analyze(t)[0]
+
+    def nth_indices(self, t):
+        return self.analyze(t)[3]
 
     def nth_concat_facts(self, t, out, seen):
-        key = ('ncf', t.get_id())
-        hit = self._fc_memo.get(key)
-        if hit is not None:
-            for i, fs, _ in hit[0]:
-                if i not in seen:
-                    seen.add(i)
-                    out.extend(fs)
-            return
-        found = []
-        self._nth_concat_scan(t, found)
-        self._fc_memo[key] = (found, t)
-        for i, fs, _ in found:
+        for i, fs in self.analyze(t)[4]:
             if i not in seen:
                 seen.add(i)
                 out.extend(fs)
-
-    def _nth_concat_scan(self, t, found):
-        stack = [t]
-        visited = set()
-        seen = set()
-        out = None
-        while stack:
-            x = stack.pop()
-            i = x.get_id()
-            if i in visited or z3.is_quantifier(x):
-                continue
-            visited.add(i)
-            if z3.is_app(x):
-                if x.decl().kind() == z3.Z3_OP_SEQ_NTH and x.num_args() == 2:
-                    sq, ix = x.arg(0), x.arg(1)
-                    if z3.is_app(sq) and sq.decl().kind() == z3.Z3_OP_SEQ_CONCAT and \
-                            sq.num_args() == 2 and i not in seen:
-                        seen.add(i)
-                        a, b = sq.arg(0), sq.arg(1)
-                        la = z3.Length(a)
-                        found.append((i, [
-                            z3.Implies(z3.And(ix >= 0, ix < la), x == a[ix]),
-                            z3.Implies(z3.And(ix >= la, ix < la + z3.Length(b)),
-                                       x == b[ix - la])], x))
-                stack.extend(x.children())
-
-    def nth_indices(self, t):
-        """Ground index terms of seq.nth applications in t (outside quantifiers)."""
-        key = ('nth', t.get_id())
-        if key in self._fc_memo:
-            return self._fc_memo[key][0]
-        out, seen, stack = [], set(), [t]
-        while stack:
-            x = stack.pop()
-            i = x.get_id()
-            if i in seen or z3.is_quantifier(x):
-                continue
-            seen.add(i)
-            if z3.is_app(x):
-                if x.decl().kind() == z3.Z3_OP_SEQ_NTH and x.num_args() == 2:
-                    out.append(x.arg(1))
-                elif x.decl().kind() == z3.Z3_OP_SELECT and x.num_args() == 2 and \
-                        x.arg(1).sort() == z3.IntSort():
-                    out.append(x.arg(1))
-                stack.extend(x.children())
-        self._fc_memo[key] = (out, t)
-        return out
-
-    def fresh_consts(self, t):
-        """Names of the fresh (engine-generated, 'name!n') constants occurring in t."""
-        key = t.get_id()
-        memo = self._fc_memo
-        if key in memo:
-            return memo[key][0]
-        out = set()
-        seen = set()
-        stack = [t]
-        while stack:
-            x = stack.pop()
-            i = x.get_id()
-            if i in seen:
-                continue
-            seen.add(i)
-            if z3.is_quantifier(x):
-                stack.append(x.body())
-                continue
-            if z3.is_app(x):
-                if x.num_args() == 0:
-                    if x.decl().kind() == z3.Z3_OP_UNINTERPRETED:
-                        n = x.decl().name()
-                        if '!' in n:
-                            out.add(n)
-                else:
-                    stack.extend(x.children())
-        memo[key] = (frozenset(out), t)
-        return memo[key][0]
 
     def fork(self, st, cond):
         """yield (state, bool) for the feasible sides of cond."""
@@ -438,7 +490,7 @@ class Engine:
             yield b, False
 
     def oblige(self, st, kind, label, goal, props=None, line=0, note='', hints=()):
-        prem = list(st.pc) + list(hints)
+        prem = list(st.pc) + list(st.qpc) + list(hints)
         # quantified goals are skolemised; sidecar `forall` premises are instantiated by hand at
         # the skolem constants and at the ground index terms of the path (no reliance on
         # E-matching over seq.nth, which neither back end does)
@@ -456,7 +508,7 @@ class Engine:
         seen = set(c.get_id() for c in cands)
         for t in prem[:nprem] + [goal]:
             for ix in self.nth_indices(t):
-                if ix.get_id() not in seen and len(cands) < 24:
+                if ix.get_id() not in seen and len(cands) < 32:
                     seen.add(ix.get_id())
                     cands.append(ix)
         inst = []
@@ -585,7 +637,15 @@ class Engine:
             return VNONE
         t = z3.Select(self.heap_arr(st, key, sort_of(fty)), r)
         v = V(fty, t)
+        self.wf_ref(st, v)
         return v
+
+    def wf_ref(self, st, v):
+        """Heap well-formedness (assumed): a reference read from the heap denotes an object that
+        has been allocated (or None for optional references)."""
+        if v.ty.kind == 'ref' and '$alloc' in st.ghost:
+            lo = 0 if is_opt(v.ty) else 1
+            self.fact(st, z3.And(v.t >= lo, v.t <= st.ghost['$alloc'].t))
 
     def heap_store(self, st, ref, field, v):
         cls = ref.ty.args[0]
@@ -654,7 +714,12 @@ class Engine:
                 return V(ty, v.t)
         if k == 'dict' and v.ty.kind == 'rec' and len(v.t) == 0:
             ks, vs = sort_of(ty.args[0]), sort_of(ty.args[1])
-            return V(ty, (z3.K(ks, z3.BoolVal(False)), z3.K(ks, self.default_term(vs))))
+            dom = z3.K(ks, z3.BoolVal(False))
+            ax = self.lib.card(dom) == 0
+            if ax.get_id() not in self._fact_ids:
+                self._fact_ids.add(ax.get_id())
+                self.facts.append(ax)
+            return V(ty, (dom, z3.K(ks, self.default_term(vs))))
         if k == 'dict' and v.ty.kind == 'dict':
             return V(ty, v.t)
         if k in ('ref', 'opaque') and v.ty.kind in ('ref', 'opaque'):
@@ -705,7 +770,12 @@ class Engine:
     # -----------------------------------------------------------------------------------------
     # spec evaluation (pure, merged)
     def spec(self, src, st, env=None, result=None, pre=None, modname='spec'):
-        tree = src if isinstance(src, ast.AST) else ast.parse(src.strip(), mode='eval').body
+        if isinstance(src, ast.AST):
+            tree = src
+        else:
+            tree = self._parsed.get(src)
+            if tree is None:
+                tree = self._parsed[src] = ast.parse(src.strip(), mode='eval').body
         s2 = st.copy()
         s2.spec = True
         if pre is not None:
@@ -1346,6 +1416,11 @@ class Engine:
             v = env[n]
             if v.ty.kind == 'list' and v.ty.args[0].kind == 'bot':
                 raise EngineError('recursive spec function applied to an untyped empty list')
+            if v.ty.kind == 'dict':
+                for t in v.t:
+                    dom.append(t.sort())
+                    actual.append(t)
+                continue
             # scalars are passed boxed so that one symbol serves every static typing of a call
             t = v.t if v.ty.kind in ('list', 'int', 'ref') else box(v)
             dom.append(t.sort())
@@ -1643,6 +1718,18 @@ class Engine:
                     if note not in self.dropped:
                         self.dropped.append(note)
                     return iter([(st, None)])
+        if c is not None and c.cuts_ and not st.spec and id(s) not in self._in_cut:
+            seg = self._stmt_text(s)
+            for pat, invs in c.cuts_:
+                if seg.startswith(pat):
+                    return self._cut(s, st, pat, invs)
+        if c is not None and c.ghost_before_ and not st.spec:
+            seg = self._stmt_text(s)
+            for pat, name, src in c.ghost_before_:
+                if seg.startswith(pat):
+                    self.check_hits.add(pat)
+                    st = st.copy()
+                    self.setlocal(st, name, self.spec(src, st, dict(st.env)))
         if c is not None and c.checks_ and not st.spec:
             seg = self._stmt_text(s)
             for pat, cl in c.checks_:
@@ -1656,6 +1743,58 @@ class Engine:
             raise EngineError('unsupported statement %s at line %d'
                               % (type(s).__name__, s.lineno))
         return m(s, st)
+
+    def _cut(self, s, st, pat, invs):
+        self.check_hits.add(pat)
+        for cl in invs:
+            self.oblige(st, 'cut', cl.label, self.spec_bool(cl.src, st, dict(st.env), goal=True),
+                        props=cl.props, line=s.lineno)
+        used = set()
+        for n in ast.walk(self._cur_node):
+            if isinstance(n, ast.Name) and isinstance(n.ctx, ast.Load) and \
+                    getattr(n, 'lineno', 0) >= s.lineno:
+                used.add(n.id)
+        shape = tuple(sorted((k, repr(v.ty) if v.ty.kind != 'rec' else
+                              'rec' + repr(sorted(v.t))) for k, v in st.env.items()
+                             if not k.startswith('__') and k in used and
+                             v.ty.kind not in ('fn', 'mod', 'exc')))
+        key = (id(s), shape)
+        if key in self._loops_done:
+            return iter(())
+        self._loops_done[key] = True
+        pre = self.cur_pre
+        head = pre.copy()
+        head.pre = pre
+        head.entry_env = st.entry_env
+        head.trace = ('K%d.%d' % (s.lineno, len([1 for k in self._loops_done
+                                                  if isinstance(k, tuple) and k[0] == id(s)])),)
+        head.sharded = True
+        head.writes = set()
+        self.havoc_alloc(head)
+        self.havoc(head, self.cur_contract.modifies_, self.cur_penv, 'cut')
+        env = dict(st.env)
+        names = set(k for k, _ in shape)
+        for k, v in st.env.items():
+            if k.startswith('__') or k in self.cur_penv and st.env[k] is self.cur_penv[k]:
+                continue
+            if v.ty.kind in ('fn', 'mod'):
+                continue
+            if k not in names:
+                del env[k]
+                continue
+            env[k] = self.fresh_like(v, k, head)
+        head.env = env
+        head = self.add_all(head, [self.spec_bool(cl.src, head, env) for cl in invs])
+        if head is None:
+            return iter(())
+        self._in_cut.add(id(s))
+
+        def run():
+            try:
+                yield from self.ex(s, head)
+            finally:
+                self._in_cut.discard(id(s))
+        return run()
 
     def _stmt_text(self, s):
         try:
@@ -2061,7 +2200,12 @@ class Engine:
         st.ghost['$alloc'] = V(INT, a1)
 
     def fresh_like(self, v, hint, st):
-        if v.ty.kind in ('rec', 'tup', 'fn', 'mod', 'exc'):
+        if v.ty.kind == 'rec':
+            return V(REC, {k: self.fresh_like(x, hint + '.' + k, st) for k, x in v.t.items()})
+        if v.ty.kind == 'tup':
+            return V(v.ty, tuple(self.fresh_like(x, '%s.%d' % (hint, i), st)
+                                 for i, x in enumerate(v.t)))
+        if v.ty.kind in ('fn', 'mod', 'exc'):
             raise EngineError('cannot havoc structural local %s' % hint)
         if v.ty.kind == 'none':
             return V(ANY, self.fresh(ANY, hint, st).t)
@@ -2245,6 +2389,7 @@ class Engine:
         self._cur_node = node
         self.number_loops(node)
         self._loops_done = {}
+        self._in_cut = set()
         self.check_hits = set()
         n0 = len(self.obls)
         union = [(n, t) for n, t in c.params.items() if isinstance(t, list)]
@@ -2254,6 +2399,10 @@ class Engine:
             self.case_tag = ','.join('%s:%s' % (n, t.kind) for (n, _), t in zip(union, combo))
             total += self._verify_case(qualname, c, mod, node)
         if self.shard is None:
+            for pat in [g[0] for g in c.ghost_before_] + [g[0] for g in c.cuts_]:
+                if pat not in self.check_hits:
+                    raise EngineError('contract drift: no statement of %s matches the ghost '
+                                      'program point %r' % (qualname, pat))
             for pat, cl in c.checks_:
                 if pat not in self.check_hits:
                     raise EngineError('contract drift: no statement of %s matches the program '
@@ -2268,7 +2417,7 @@ class Engine:
             st.trace = st.trace + (self.case_tag,)
         penv = dict(st.env)
         for cl in c.requires_:
-            st = self.assume(st, self.spec_bool(cl.src, st, penv), copy=False)
+            st = self.add_all(st, [self.spec_bool(cl.src, st, penv)])
             if st is None:
                 raise EngineError('precondition of %s is unsatisfiable (%s)'
                                   % (qualname, cl.label))
